@@ -23,6 +23,7 @@ type PropSpec struct {
 	Assumptions []string `json:"assumptions"`
 	Undecided   []string `json:"clauses_not_decided"`
 	Bounded     []string `json:"bounded"`
+	Conformance []string `json:"conformance"` // bounded conformance runs of assumed contracts: conformance/<name>.go.txt, "<name>:<pkgdir>:<TestName>"
 	ClosedWorld []CWRule `json:"closed_world"`
 }
 
@@ -446,6 +447,44 @@ func cmdCheck(args []string) {
 		}
 	}
 
+	// bounded conformance runs of assumed library contracts (never counted as proved; a failure means an assumed
+	// contract is wrong for the code as it stands, which is reported as a violation of the check's basis)
+	bounded := append([]string(nil), ps.Bounded...)
+	for _, cf := range ps.Conformance {
+		parts := strings.Split(cf, ":")
+		if len(parts) != 3 {
+			continue
+		}
+		src, err := os.ReadFile(filepath.Join(vd, "conformance", parts[0]+".go.txt"))
+		if err != nil {
+			bounded = append(bounded, "conformance run "+parts[0]+": source missing")
+			continue
+		}
+		maxLen := "5"
+		if thorough {
+			maxLen = "6"
+		}
+		os.Setenv("GOVC_CONF_MAXLEN", maxLen)
+		tC := time.Now()
+		failed, out := runOverlayTestV(*repo, parts[1], parts[2], string(src))
+		line := ""
+		for _, l := range strings.Split(out, "\n") {
+			if strings.Contains(l, "CONFORMANCE") {
+				line = strings.TrimSpace(l)
+			}
+		}
+		if failed || line == "" {
+			rp := filepath.Join(vd, "out", "replay", pid+"_conformance_"+parts[0]+".replay")
+			os.MkdirAll(filepath.Dir(rp), 0o755)
+			os.WriteFile(rp, []byte("assumed contract "+parts[0]+" does not hold of the real code (bounded conformance run):\n"+out), 0o644)
+			fmt.Printf("VIOLATION property=%s replay=%s obligation=conformance/%s status=refuted\n", pid, rp, parts[0])
+			viols = append(viols, violation{&oblSummary{Name: "conformance/" + parts[0], Status: "refuted"}, "refuted"})
+			bounded = append(bounded, "conformance run "+parts[0]+": FAILED")
+			continue
+		}
+		bounded = append(bounded, fmt.Sprintf("bounded (not proof): assumed contract '%s' checked against the real code: %s; %.1fs", parts[0], line, time.Since(tC).Seconds()))
+	}
+
 	// evidence
 	var samples []any
 	for i, n := range names {
@@ -511,7 +550,7 @@ func cmdCheck(args []string) {
 			"known_findings_set_aside": knownHit,
 			"undecided_or_refuted":     len(viols),
 			"replay_confirmed":         confirmed,
-			"bounded":                  ps.Bounded,
+			"bounded":                  bounded,
 			"dropped_by_extraction":    dropped,
 			"contract_problems":        specProblems,
 			"samples":                  samples,
